@@ -319,3 +319,128 @@ def scan(ctx):
         if isinstance(v, tuple):
             ctx.oblige(f"C02/Scan.{meth}/post/log_dets_add_up", to_real(lift(v[1])) == ldg(*args), pre + p.cond, props, fn=f"{Q}.Scan.{meth}", replay=rp, inst=INSTS)
     ctx.assume_note("Scan: round trips and inverse log-det follow from the Chain lemmas (C01/lemma/chain_rt*, C02/lemma/chain_ld_inv) because Scan's four methods equal the same ghost folds")
+
+
+# --------------------------------------------------------------------------------------
+@family("combinators/Vmap", ["C01", "C02", "C08"])
+def vmap_(ctx):
+    """Vmap applies the wrapped bijection slice by slice along the new leading axis; parameters and condition mapped or broadcast"""
+    it = ctx.interp
+    props = ["C01", "C02", "C08"]
+    Q = "flowjax.bijections.jax_transforms.Vmap"
+    cls = it.repo_class(Q)
+    b = z3.Const("b", BIJ)
+    x, c = z3.Const("x", T), z3.Const("c", T)
+    SL = z3.Function("slice", T, I, T)  # slice i along the mapped axis
+    BSL = z3.Function("param_slice", BIJ, I, BIJ)  # the bijection with slice i of its mapped parameters
+    i = z3.Int("i")  # the generic slice
+    rp = dict(kind="combinators", cls="Vmap", vars={})
+
+    class Sliced:
+        """a batched value known through its generic slice"""
+
+        def __init__(self, at):
+            self.at = at
+
+    def filter_vmap(f, in_axes=None, axis_size=None, **kw):
+        ia_b, ia_x, ia_c = in_axes
+
+        def mapped(bij, xx, cond):
+            bi = AbsBij(BSL(bij.b, i)) if ia_b is not None else bij
+            xi = TV(SL(xx.e, i)) if ia_x is not None else xx
+            ci = None if cond is None else (TV(SL(cond.e, i)) if ia_c is not None else cond)
+            out = f(bi, xi, ci)
+
+            def wrap(v):
+                return Sliced(v.e) if isinstance(v, TV) else SV(lift(v), elem=True)  # per-slice scalars form a vector (jnp.sum -> reduction)
+
+            return tuple(wrap(v) for v in out) if isinstance(out, tuple) else wrap(out)
+        return mapped
+
+    it.lib.overrides["equinox.filter_vmap"] = filter_vmap
+    inst = [B_instances]
+    for pname, ia_b in (("mapped_params", "axes"), ("broadcast_params", None)):
+        for cname, ia_c, cond in (("mapped_condition", 0, TV(c)), ("broadcast_condition", None, TV(c)), ("unconditional", None, None)):
+            self = Obj(cls, bijection=AbsBij(b), in_axes=(ia_b, 0, ia_c), axis_size=SV(z3.Int("axis_size")), cond_shape=None)
+            bi = BSL(b, i) if ia_b is not None else b
+            ci = NONE if cond is None else (SL(c, i) if ia_c is not None else c)
+            xi = SL(x, i)
+            tag = f"{pname},{cname}"
+            outs = {}
+            for meth in ("transform", "inverse", "transform_and_log_det", "inverse_and_log_det"):
+                p = single(it.explore(lambda meth=meth: method(cls, meth)(self, TV(x), cond)), ctx, f"C08/Vmap.{meth}[{tag}]/struct/straight_line", props, f"{Q}.{meth}")
+                if p is not None:
+                    outs[meth] = p.value
+            if len(outs) != 4:
+                continue
+            okk = isinstance(outs["transform"], Sliced) and isinstance(outs["inverse"], Sliced) and isinstance(outs["transform_and_log_det"][1], SumT) and isinstance(outs["inverse_and_log_det"][1], SumT)
+            ctx.oblige(f"C02/Vmap[{tag}]/struct/log_det_is_summed_over_the_new_axis", bool(okk), [], props, kind="struct", fn=Q, note="jnp.sum over the vmapped axis: a scalar whatever the shape")
+            if not okk:
+                continue
+            ctx.oblige(f"C08/Vmap[{tag}]/post/slice_by_slice", z3.And(outs["transform"].at == F(bi, xi, ci), outs["inverse"].at == G(bi, xi, ci), outs["transform_and_log_det"][0].at == F(bi, xi, ci), outs["inverse_and_log_det"][0].at == G(bi, xi, ci)), [], props, fn=Q, replay=rp)
+            ctx.oblige(f"C02/Vmap[{tag}]/post/log_det_sums_the_slices", z3.And(outs["transform_and_log_det"][1].t == LD(bi, xi, ci), outs["inverse_and_log_det"][1].t == -LD(bi, G(bi, xi, ci), ci)), [], props, fn=Q, replay=rp)
+            ctx.oblige(f"C01/Vmap[{tag}]/rt1", G(bi, outs["transform"].at, ci) == xi, [], props, fn=Q, replay=rp, inst=inst, note="slice i of inverse(transform(x)) (the inverse maps with the same in_axes)")
+            ctx.control(f"C08/Vmap[{tag}]/control/wrong_slice", outs["transform"].at == F(bi, SL(x, i + 1), ci), [SL(x, i + 1) != xi, F(bi, SL(x, i + 1), ci) != F(bi, xi, ci)], props, fn=Q)
+
+
+@family("combinators/Concatenate_Stack", ["C01", "C02", "C08"])
+def concat_stack(ctx):
+    """each part is applied to its slice along the axis (2 and 3 children; the split points / shapes are the shapes family)"""
+    it = ctx.interp
+    props = ["C01", "C02", "C08"]
+    x, c = z3.Const("x", T), z3.Const("c", T)
+    PART = z3.Function("part", T, I, T)  # part j of array_split(x, split_idxs, axis) / of split+squeeze
+    rp = dict(kind="combinators", vars={})
+    inst = [B_instances]
+    for cname, q, split_name, join_name in (("Concatenate", "flowjax.bijections.concatenate.Concatenate", "array_split", "concatenate"), ("Stack", "flowjax.bijections.concatenate.Stack", "split", "stack")):
+        cls = it.repo_class(q)
+        for k in (2, 3):
+            bs = [z3.Const(f"b{j}", BIJ) for j in range(k)]
+            JOIN = z3.Function(f"{join_name}{k}", *([T] * k), T)
+            rec = {}
+
+            class PV(TV):
+                def squeeze(self, axis=None):
+                    rec.setdefault("squeeze_axes", []).append(axis)
+                    return self
+
+            def split(arr, sections, axis=0, k=k, rec=rec):
+                rec["split"] = (sections, axis)
+                return [PV(PART(arr.e, z3.IntVal(j))) for j in range(k)]
+
+            def join(parts, axis=0, JOIN=JOIN, rec=rec):
+                rec["join_axis"] = axis
+                parts = list(parts)
+                return TV(JOIN(*[p.e for p in parts]))
+
+            it.lib.overrides[f"jax.numpy.{split_name}"] = split
+            it.lib.overrides[f"jax.numpy.{join_name}"] = join
+            ax = SV(z3.Int("axis"))
+            fields = dict(bijections=[AbsBij(bj) for bj in bs], axis=ax, shape=("s",), cond_shape=("c",))
+            if cname == "Concatenate":
+                fields["split_idxs"] = ("split_idxs",)
+            self = Obj(cls, **fields)
+            outs = {}
+            for meth in ("transform", "inverse", "transform_and_log_det", "inverse_and_log_det"):
+                p = single(it.explore(lambda meth=meth: method(cls, meth)(self, TV(x), TV(c))), ctx, f"C08/{cname}.{meth}[k={k}]/struct/straight_line", props, f"{q}.{meth}")
+                if p is not None:
+                    outs[meth] = p.value
+            if len(outs) != 4:
+                continue
+            parts = [PART(x, z3.IntVal(j)) for j in range(k)]
+            fw = JOIN(*[F(bs[j], parts[j], c) for j in range(k)])
+            bw = JOIN(*[G(bs[j], parts[j], c) for j in range(k)])
+            ctx.oblige(f"C08/{cname}[k={k}]/post/each_part_on_its_slice", z3.And(outs["transform"].e == fw, outs["inverse"].e == bw, outs["transform_and_log_det"][0].e == fw, outs["inverse_and_log_det"][0].e == bw), [], props, fn=q, replay=rp)
+            ctx.oblige(f"C02/{cname}[k={k}]/post/log_dets_add_up_over_parts", z3.And(lift(outs["transform_and_log_det"][1]) == z3.Sum([LD(bs[j], parts[j], c) for j in range(k)]),
+                       lift(outs["inverse_and_log_det"][1]) == z3.Sum([-LD(bs[j], G(bs[j], parts[j], c), c) for j in range(k)])), [], props, fn=q, replay=rp)
+            same_axis = rec.get("join_axis") is ax and (rec.get("split", (None, None))[1] is ax) and all(a is ax for a in rec.get("squeeze_axes", []))
+            ctx.oblige(f"C08/{cname}[k={k}]/struct/split_and_join_along_the_declared_axis", bool(same_axis), [], props, kind="struct", fn=q)
+            if cname == "Stack":
+                ctx.oblige(f"C08/Stack[k={k}]/struct/splits_into_one_slice_per_child", rec.get("split", (None,))[0] == k and len(rec.get("squeeze_axes", [])) >= k, [], props, kind="struct", fn=q)
+            else:
+                ctx.oblige(f"C08/Concatenate[k={k}]/struct/splits_at_declared_points", rec.get("split", (None,))[0] == ("split_idxs",), [], props, kind="struct", fn=q)
+            # round trip from the split/join laws (T1): part j of join(p_0..p_{k-1}) is p_j (children keep their shapes: B-shape)
+            t = outs["transform"].e
+            back = z3.substitute(outs["inverse"].e, (x, t))
+            laws = [PART(fw, z3.IntVal(j)) == F(bs[j], parts[j], c) for j in range(k)] + [JOIN(*parts) == x]
+            ctx.oblige(f"C01/{cname}[k={k}]/rt1", back == x, laws, props, fn=q, replay=rp, inst=inst, note="hypotheses: split(join(parts)) = parts and join(split(x)) = x along the same axis and split points")
